@@ -238,6 +238,9 @@ type ArtelaOpts struct {
 	NoRoot        bool // skip IntermediateRoot (keeps the journal intact)
 	JPOverride    *bool // force join points on/off for all invocations
 	NullTracer    bool  // install a do-nothing debug tracer (debug mode without recording)
+	// DigestAt, if set, is evaluated at every transfer / can-transfer wrapper call
+	// (before the transfer) and stored in the event.
+	DigestAt func(st *state.StateDB) string
 	// InnerFor, if set, supplies a fresh real tracer per invocation (Debug must be on).
 	InnerFor func(i int, evm *avm.EVM, inv *Invocation) avm.EVMLogger
 	Ctx           context.Context
@@ -264,13 +267,25 @@ func RunArtela(sc *Scenario, opt ArtelaOpts) *ArtelaRun {
 			if opt.OnCanTransfer != nil {
 				opt.OnCanTransfer(st, evm, a, amt)
 			}
-			return artcore.CanTransfer(db, a, amt)
+			ok := artcore.CanTransfer(db, a, amt)
+			ev := Ev{K: EvCanTransfer, From: a, Value: cpBig(amt), Create: ok}
+			if opt.DigestAt != nil {
+				ev.Digest = opt.DigestAt(st)
+			}
+			rec.add(ev)
+			return ok
 		},
 		Transfer: func(db avm.StateDB, from, to common.Address, amt *big.Int) {
 			if opt.OnTransfer != nil {
 				opt.OnTransfer(st, evm, from, to, amt, true)
 			}
+			ev := Ev{K: EvTransfer, From: from, To: to, Value: cpBig(amt), BalFromBefore: cpBig(st.GetBalance(from)), BalToBefore: cpBig(st.GetBalance(to))}
+			if opt.DigestAt != nil {
+				ev.Digest = opt.DigestAt(st)
+			}
 			artcore.Transfer(db, from, to, amt)
+			ev.BalFromAfter, ev.BalToAfter = cpBig(st.GetBalance(from)), cpBig(st.GetBalance(to))
+			rec.add(ev)
 			if opt.OnTransfer != nil {
 				opt.OnTransfer(st, evm, from, to, amt, false)
 			}
